@@ -575,6 +575,9 @@ void Plan::ScheduleInitialEdges() {
     if (want == kWantToStart && edge->AllInputsReady()) {
       Pool* pool = edge->pool();
       if (pool->ShouldDelayEdge()) {
+        // Mark the edge as scheduled, as ScheduleWork() does: it is handed to
+        // the pool here and must not be scheduled a second time later on.
+        it->second = kWantToFinish;
         pool->DelayEdge(edge);
         pools.insert(pool);
       } else {
